@@ -86,6 +86,10 @@ def make_env(src, bld, backend):
         from bfg9000.path import abspath, InstallRoot
         env = Environment(abspath('/bfgdir'), backend, None, abspath(src, directory=True), abspath(bld, directory=True))
         env.finalize({InstallRoot.prefix: abspath('/prefix')}, (True, True), True)
+        # flag variables of the configure environment (read when the builders are created): global flags and global libraries
+        if len(_ENVS) % 3 != 2:
+            env.variables.update({'CFLAGS': '-DENVC="e c" -O1', 'LDFLAGS': "-Wl,--as-needed '-L/e n v'", 'LDLIBS': '-lm -l:x\\ y.a',
+                                  'CPPFLAGS': '-DCPP=a#b'})
         _ENVS[key] = env
     return _ENVS[key]
 
@@ -107,7 +111,11 @@ def gen_path(rng, rep):
     if root == Root.absolute:
         sfx = '/' + sfx
     rep.count('compdb:path root=%s depth=%d' % (root.name, n))
-    return Path(sfx, root)
+    try:
+        return Path(sfx, root)
+    except ValueError:          # a drive-like or otherwise rejected spelling (C12): not a path, not a case
+        rep.count('compdb:path spelling rejected by Path()')
+        return Path('/plain' if root == Root.absolute else 'plain', root)
 
 
 def gen_arg(rng, rep):
@@ -397,7 +405,7 @@ def stage_handlers(rep, rng, n, tag='W:compdb handlers'):
                     want = list(tool.command) + list(tool._always_flags) + eff[key(F)] + list(e.files) + eff[key(Lb)] + \
                         ['-o', e.output[0]]
                 want_s = [db._stringify(x, env.builddir) for x in want]
-                if want_s != got:
+                if want_s != got and bad < 4:
                     bad += rep.fail('%s: compile_commands.json arguments %r differ from the arguments the %s handler registers %r' %
                                     (kind, got, bname, want_s),
                                     {'kind': 'compdb-vs-' + bname, 'edge': kind, 'output': e.output[0].path.suffix,
